@@ -397,3 +397,82 @@ func entropyFixed(sw *sweep) {
 	}
 	_ = bytes.Equal
 }
+
+// ---------------------------------------------------------------- C02 / C07: very large protected buckets
+
+// Protected buckets around the sizes where the length prefix changes width or where a byte of the
+// prefix becomes non-zero (2^16, 2^24), under every head width that can carry them.  The oracle is
+// the harness's own RFC 9052 encoder (refTBS1); the Lean driver is not used at these sizes (its
+// notation parser is not tail-recursive), the theorem `C02.detBstr_spec` covers every length.
+type recVerifier struct {
+	alg cose.Algorithm
+	got [][]byte
+}
+
+func (v *recVerifier) Algorithm() cose.Algorithm { return v.alg }
+func (v *recVerifier) Verify(content, sig []byte) error {
+	v.got = append(v.got, append([]byte(nil), content...))
+	return nil
+}
+
+func bigProtected(sw *sweep) {
+	payload := []byte{0x50}
+	for _, size := range []int{1<<16 - 1, 1 << 16, 1<<16 + 1, 1<<24 - 1, 1 << 24, 1<<24 + 1, 1<<24 + 1<<16} {
+		var content []byte
+		for pad := size - 9; pad <= size-4 && len(content) != size; pad++ {
+			content = wMap(wInt(1), wInt(-7), wInt(4), wBstr(make([]byte, pad))).enc()
+		}
+		if len(content) != size {
+			sw.fail("bigprot", fmt.Sprint(size), "harness could not build a protected map of this size")
+			continue
+		}
+		for _, hw := range []int{2, 4, 8} {
+			if hw < shortestHW(uint64(size)) {
+				continue
+			}
+			prot := wBstr(content)
+			prot.HW = hw
+			want := refTBS1(content, []byte{}, payload)
+			msg := wTag(18, wArr(prot, wMap(), wBstr(payload), wBstr([]byte{1, 2, 3}))).enc()
+			desc := fmt.Sprintf("protected content of %d bytes under a %d-byte length prefix", size, hw)
+			sw.evals++
+			var m cose.Sign1Message
+			if err := m.UnmarshalCBOR(msg); err != nil {
+				sw.fail("bigprot", desc, "a conforming message was refused: "+err.Error())
+				continue
+			}
+			v := &recVerifier{alg: cose.AlgorithmES256}
+			if err := m.Verify(nil, v); err != nil || len(v.got) != 1 {
+				sw.fail("bigprot", desc, fmt.Sprintf("Verify did not reach the verifier: %v", err))
+				continue
+			}
+			if !bytes.Equal(v.got[0], want) {
+				n := 24
+				sw.fail("bigprot", desc+fmt.Sprintf(" verifier-input-head=%x want-head=%x", v.got[0][:n], want[:n]), "the verifier input is not the RFC 9052 Sig_structure with the protected bytes under their shortest length prefix")
+				continue
+			}
+			// re-encoding keeps the received protected bytes
+			if enc, err := m.MarshalCBOR(); err != nil || !bytes.Equal(enc, msg) {
+				sw.fail("bigprot", desc, "re-encoding a decoded message changed its bytes")
+				continue
+			}
+			// countersignature over it: the parent's protected bytes enter under the shortest prefix too
+			v2 := &recVerifier{alg: cose.AlgorithmES256}
+			if err := cose.VerifyCountersign0(v2, &m, nil, []byte{1}); err != nil || len(v2.got) != 1 {
+				sw.fail("bigprot", desc, "VerifyCountersign0 did not reach the verifier")
+				continue
+			}
+			wantCS := refCountersign0(content, []byte{}, payload, []byte{1, 2, 3})
+			if wantCS != nil && !bytes.Equal(v2.got[0], wantCS) {
+				sw.fail("bigprot", desc, "the abbreviated countersignature input is not the RFC 9338 structure over the parent's protected bytes under their shortest prefix")
+				continue
+			}
+			sw.nontrivial++
+		}
+	}
+}
+
+// RFC 9338 §3.3 Countersign_structure of an abbreviated countersignature (version 2 context) over a COSE_Sign1
+func refCountersign0(protContent, ext, payload, parentSig []byte) []byte {
+	return wArr(wTstr("CounterSignature0V2"), wBstr(protContent), wBstr(nil), wBstr(ext), wBstr(payload), wArr(wBstr(parentSig))).enc()
+}
